@@ -618,6 +618,9 @@ TRUSTED_BASE = [
     "extraction with ExtrOcamlBasic only (bool, option, unit, list, prod, sumbool, sumor; andb/orb inlined); N/Z/positive/nat stay inductives",
     "OCaml driver extract/driver.ml (decimal <-> Z conversion), Go harness under harness/, Python comparison in lib/",
     "Go 1.26.8 testing/synctest fake clock for the timed and concurrent scenarios",
+    "tools/gotrans (Go -> Gallina translator for the sequential functions and the v2 priority goroutine body, regenerated on every run) with its "
+    "semantics libraries GoSem.v / GoConc.v (64-bit wrap-around, maps as association lists, control flow and channel requests; documented totalisations); "
+    "the other Go-AST translators (racefacts, srcconsts, blockfacts) where their output is used",
 ]
 
 
